@@ -126,7 +126,7 @@ def markup_cases():
 
 
 def search():
-    hit = markup_cases()
+    hit = markup_cases() or leak_cases()
     if hit:
         return hit
     try:
@@ -171,4 +171,59 @@ def search():
 
 
 def count_cases():
-    return sum(1 for _ in corruptions()) + 3
+    return sum(1 for _ in corruptions()) + 6
+
+
+def leak_cases():
+    """what the reader had buffered when a file was rejected (documentation lines, `;`-fragments) must not turn up in the file read next"""
+    bads = {
+        "inline doc on the rejected statement": "module bad\n  real(kind=8 :: x !! summary: LEAKEDWORDS from the bad file\nend module bad\n",
+        "fragments after the rejected statement": "module bad\n  real(kind=8 :: x; integer :: leaked_one; integer :: leaked_two\nend module bad\n",
+        "stray end with a doc comment": "end module bad !! license: LEAKEDWORDS\n",
+    }
+    fp = loader.import_repo("ford.fortran_project")
+    for label, text in bads.items():
+        files = dict(GOOD)
+        files["src/m_bad.f90"] = text
+        try:
+            with watchdog(60):
+                tree, ids, log = build(files)
+                ref_tree, ref_ids, _ = build(GOOD)
+        except Exception as e:
+            return {"confirmed": True, "input": {"corruption": label, "file": text}, "actual": f"run aborted: {type(e).__name__}: {e}", "expected": "reported and skipped", "how": "Project(...)"}
+        others = {k: v for k, v in tree.items() if k != "m_bad.f90"}
+        d = canon.diff(tuple(sorted(ref_tree.items())), tuple(sorted(others.items())))
+        if d:
+            return {"confirmed": True, "input": {"corruption": label, "file": text}, "actual": d, "expected": "entity trees of the valid files unchanged", "how": "canonical trees with / without the bad file"}
+    # documentation and metadata of the valid files with and without the bad file
+    def docs(files):
+        st = loader.import_repo("ford.settings")
+        realrun.reset_names()
+        import pathlib
+        with realrun.project_dir(files) as d:
+            out = io.StringIO()
+            with contextlib.redirect_stdout(out), contextlib.redirect_stderr(out):
+                import ford.console as fc
+                old = fc.console.file
+                fc.console.file = io.StringIO()
+                try:
+                    proj = fp.Project(st.ProjectSettings(src_dir=[pathlib.Path(d) / "src"], preprocess=False, display=["public", "private", "protected"]))
+                finally:
+                    fc.console.file = old
+            res = {}
+            for f in proj.files:
+                if f.name == "m_bad.f90":
+                    continue
+                for e in realrun.walk_entities(f):
+                    res[(f.name, type(e).__name__, getattr(e, "name", ""))] = (list(getattr(e, "doc_list", [])), str(getattr(getattr(e, "meta", None), "summary", None)), str(getattr(getattr(e, "meta", None), "license", None)))
+            return res
+    ref = docs(GOOD)
+    for label, text in bads.items():
+        files = dict(GOOD)
+        files["src/m_bad.f90"] = text
+        got = docs(files)
+        diff = [(k, ref.get(k), got.get(k)) for k in sorted(set(ref) | set(got), key=str) if ref.get(k) != got.get(k)]
+        if diff:
+            return {"confirmed": True, "input": {"corruption": label, "file": text}, "actual": [str(x)[:300] for x in diff[:3]], "expected": "documentation and metadata of the valid files unchanged",
+                    "how": "doc_list / summary / license of every entity of the valid files, with and without the rejected file (which is read before z_last.f90)"}
+    return None
